@@ -205,3 +205,18 @@ impl<Ix: IndexType> FromGraph6 for Csr<(), (), Undirected, Ix> {
         graph
     }
 }
+
+#[cfg(feature = "verif_hooks")]
+pub(crate) mod verif_hooks {
+    use crate::graph::IndexType;
+    use alloc::vec::Vec;
+    pub fn dec_bits_as_decimal(bits: Vec<u8>) -> usize {
+        super::get_bits_as_decimal(bits)
+    }
+    pub fn dec_bytes_vector_to_bits_vector(bytes: Vec<usize>) -> Vec<u8> {
+        super::bytes_vector_to_bits_vector(bytes)
+    }
+    pub fn dec_get_edges<Ix: IndexType>(order: usize, adj_matrix_bits: Vec<u8>) -> Vec<(Ix, Ix)> {
+        super::get_edges(order, adj_matrix_bits)
+    }
+}
